@@ -9,7 +9,7 @@ from ..cfg import own_exprs
 from ..facts import Fact, atoms, enumerate_paths
 from ..report import Ctx
 from .c01 import LoopInfo, _rule_horizon
-from .common import always_before, guard, need, node_of, stmts_matching, xpath
+from .common import always_before, expand, guard, need, node_of, single_defs, stmts_matching, xpath
 
 SIM = "happysimulator/core/simulation.py"
 PSIM = "happysimulator/parallel/simulation.py"
@@ -297,9 +297,36 @@ def run(ctx: Ctx) -> None:
     jl = join_loops[0]
     joined = any(isinstance(c.func, ast.Attribute) and c.func.attr == "result" and path_of(c.func.value) == path_of(jl.target) for c in calls_in(jl))
     fut_name = path_of(jl.iter.args[0])
-    subs = [st for st in walk_stmts(run_.node.body) if isinstance(st, ast.For) and "self._simulations" in unparse(st.iter)
-            and any(path_of(c.func) == "pool.submit" for c in calls_in(st))]
-    sub_ok = len(subs) == 1 and any(isinstance(s, ast.Assign) and isinstance(s.targets[0], ast.Subscript) and path_of(s.targets[0].value) == fut_name for s in subs[0].body)
+    # submission: one iteration over all of self._simulations (a for loop or a comprehension) whose every element is submitted and kept in
+    # the collection that is joined
+    def _key_var(target, it):
+        txt = unparse(it).replace(" ", "")
+        if txt in ("self._simulations", "self._simulations.keys()") and isinstance(target, ast.Name):
+            return target.id
+        if txt == "self._simulations.items()" and isinstance(target, ast.Tuple) and isinstance(target.elts[0], ast.Name):
+            return target.elts[0].id
+        return None
+    subs, sub_keys, sub_ok = [], [], False
+    for st in walk_stmts(run_.node.body):
+        if isinstance(st, ast.For) and any(path_of(c.func) == "pool.submit" for c in calls_in(st)):
+            kv = _key_var(st.target, st.iter)
+            if kv is not None:
+                subs.append(st)
+                sub_keys.append(kv)
+                sub_ok = len(st.body) >= 1 and not any(isinstance(x, (ast.If, ast.Continue, ast.Break, ast.Try)) for x in walk_stmts(st.body)) and any(
+                    (isinstance(s, ast.Assign) and isinstance(s.targets[0], ast.Subscript) and path_of(s.targets[0].value) == fut_name and any(path_of(c.func) == "pool.submit" for c in calls_in(s)))
+                    or (isinstance(s, ast.Expr) and isinstance(s.value, ast.Call) and path_of(s.value.func) in (f"{fut_name}.append", f"{fut_name}.add") and any(path_of(c.func) == "pool.submit" for c in calls_in(s)))
+                    for s in st.body)
+        elif isinstance(st, (ast.Assign, ast.AnnAssign)) and isinstance(st.value, (ast.DictComp, ast.ListComp, ast.SetComp)) and any(path_of(c.func) == "pool.submit" for c in calls_in(st.value)) \
+                and path_of(st.targets[0] if isinstance(st, ast.Assign) else st.target) == fut_name:
+            g = st.value.generators
+            kv = _key_var(g[0].target, g[0].iter) if len(g) == 1 and not g[0].ifs else None
+            if kv is not None:
+                subs.append(st)
+                sub_keys.append(kv)
+                elt = st.value.key if isinstance(st.value, ast.DictComp) else st.value.elt
+                sub_ok = isinstance(elt, ast.Call) and path_of(elt.func) == "pool.submit"
+    sub_ok = sub_ok and len(subs) == 1
     ctx.ob("C05-5", "G2", run_, jl, joined and sub_ok, "every partition of the window is submitted and its future joined (result()) — the barrier covers all partitions")
     jn = node_of(cff.cfg, jl)
     # exchange must come after the join loop has finished: the false edge of the join loop dominates the exchange
@@ -310,7 +337,7 @@ def run(ctx: Ctx) -> None:
     ok = len(adv) == 1 and not always_before(ctx, run_, lambda n: n is exn, lambda n: n.ast is adv[0][0])
     ctx.ob("C05-5", "G2", run_, adv[0][0] if adv else None, ok, "the coordinator advances to the window end only after the exchange")
     sub_args = [[unparse(a) for a in c.args] for c in calls_in(subs[0]) if path_of(c.func) == "pool.submit"] if subs else []
-    ctx.ob("C05-5", "G7", run_, "all partitions get the same window end", sub_args == [["self._run_partition_window", "name", "window_end"]],
+    ctx.ob("C05-5", "G7", run_, "all partitions get the same window end", len(subs) == 1 and sub_args == [["self._run_partition_window", sub_keys[0], "window_end"]],
            f"every partition runs to the same barrier time (submit args {sub_args})", node=subs[0] if subs else run_.node)
     clamp = [st for st in walk_stmts(run_.node.body) if isinstance(st, ast.If) and unparse(st.test).replace(" ", "") == "window_end_s>end_s"]
     ctx.ob("C05-5", "G1", run_, "window end clamped to end_time", len(clamp) == 1 and norm_stmt(clamp[0].body[0]) == "window_end_s = end_s",
@@ -351,14 +378,48 @@ def run(ctx: Ctx) -> None:
     own_heap = [st for st, _ in stmts_matching(sinit, "self._event_heap = _H_") if isinstance(st.value, ast.Call) and path_of(st.value.func) == "EventHeap"]
     ctx.ob("C05-6", "G2", sinit, "own clock + heap", len(own_clock) == 1 and len(own_heap) == 1, "each partition Simulation constructs its own Clock and EventHeap (nothing shared between partitions)")
     ir = prog.func(PSIM, "ParallelSimulation._install_routers")
-    sets = [st for st in walk_stmts(ir.node.body) if isinstance(st, ast.Assign) and unparse(st.targets[0]).replace(" ", "") == "self._simulations[p.name]._event_router"]
+    # shape, independent of local names: inside `for V in self._partitions`, the router built from V's own entity set, the linked set
+    # L[V.name] and a fresh outbox O registered as self._outboxes[V.name] is stored on self._simulations[V.name]
     mk = [c for c in calls_in(ir.node) if path_of(c.func) == "make_event_router"]
-    kw = {k.arg: unparse(k.value).replace(" ", "") for k in mk[0].keywords} if mk else {}
-    ok = len(sets) == 1 and kw.get("local_entity_ids") == "self._entity_sets[p.name]" and kw.get("linked_entity_ids") == "frozenset(linked_from[p.name])" and kw.get("outbox") == "outbox"
-    ctx.ob("C05-6", "G7", ir, mk[0] if mk else None, ok, "each partition's router knows exactly its own entities as local and the destinations of its outgoing links as linked")
-    lf = [st for st in walk_stmts(ir.node.body) if isinstance(st, ast.Expr) and isinstance(st.value, ast.Call) and unparse(st.value.func).replace(" ", "") == "linked_from[link.source_partition].update"]
-    ok = len(lf) == 1 and path_of(lf[0].value.args[0]) == "dest_eids" and any(unparse(b["_E_"]).replace(" ", "") == "self._entity_sets[link.dest_partition]" for _, b in stmts_matching(ir, "dest_eids = _E_"))
-    ctx.ob("C05-6", "G7", ir, "links are directional", ok, "linked entities of a partition are those of the destination partitions of its outgoing links")
+    sd = single_defs(ir)
+    nsp = lambda e: unparse(e).replace(" ", "") if e is not None else None
+    ok, why, L = False, "no make_event_router call inside a loop over self._partitions", None
+    loops = [st for st in walk_stmts(ir.node.body) if isinstance(st, ast.For) and nsp(st.iter) == "self._partitions" and isinstance(st.target, ast.Name)
+             and any(c in list(ast.walk(st)) for c in mk)]
+    if len(mk) == 1 and len(loops) == 1:
+        V = loops[0].target.id
+        kwn = {k.arg: k.value for k in mk[0].keywords}
+        kw = {k: nsp(v) for k, v in kwn.items()}
+        stores = [st for st in walk_stmts(loops[0].body) if isinstance(st, ast.Assign) and nsp(st.targets[0]) == f"self._simulations[{V}.name]._event_router"]
+        installed = len(stores) == 1 and (stores[0].value is mk[0] or (isinstance(stores[0].value, ast.Name) and sd.get(stores[0].value.id) is not None
+                                                                          and nsp(sd[stores[0].value.id]) == nsp(mk[0])))
+        linked = kwn.get("linked_entity_ids")
+        inner = linked.args[0] if isinstance(linked, ast.Call) and path_of(linked.func) in ("frozenset", "set") and len(linked.args) == 1 else linked
+        if isinstance(inner, ast.Subscript) and isinstance(inner.value, ast.Name) and nsp(inner.slice) == f"{V}.name":
+            L = inner.value.id
+        O = kwn.get("outbox")
+        out_ok = isinstance(O, ast.Name) and any(isinstance(st, (ast.Assign, ast.AnnAssign)) and nsp(st.targets[0] if isinstance(st, ast.Assign) else st.target) == O.id
+                                                and isinstance(st.value, ast.List) and not st.value.elts for st in loops[0].body) \
+            and any(isinstance(st, ast.Assign) and nsp(st.targets[0]) == f"self._outboxes[{V}.name]" and nsp(st.value) == O.id for st in loops[0].body)
+        ok = installed and kw.get("partition_name") == f"{V}.name" and kw.get("local_entity_ids") == f"self._entity_sets[{V}.name]" and L is not None and out_ok
+        why = f"installed={installed} kwargs={kw} linked-map={L} outbox-registered={out_ok}"
+    ctx.ob("C05-6", "G7", ir, mk[0] if mk else None, ok, "each partition's router knows exactly its own entities as local and the destinations of its outgoing links as linked, "
+           "and is installed on that partition's Simulation with that partition's registered outbox" + ("" if ok else " — " + why))
+    lf = [st for st in walk_stmts(ir.node.body) if isinstance(st, ast.Expr) and isinstance(st.value, ast.Call) and L is not None and isinstance(st.value.func, ast.Attribute)
+          and st.value.func.attr in ("update", "__ior__") and isinstance(st.value.func.value, ast.Subscript) and path_of(st.value.func.value.value) == L]
+    lf_all = [st for st in walk_stmts(ir.node.body) if L is not None and any(isinstance(x, ast.Subscript) and path_of(x.value) == L and not isinstance(x.ctx, ast.Load) for x in ast.walk(st))]
+    ok = len(lf) == 1 and not lf_all
+    if ok:
+        lp = [st for st in walk_stmts(ir.node.body) if isinstance(st, ast.For) and nsp(st.iter) == "self._links" and isinstance(st.target, ast.Name) and lf[0] in list(walk_stmts(st.body))]
+        ok = len(lp) == 1
+        if ok:
+            K = lp[0].target.id
+            ok = nsp(lf[0].value.func.value.slice) == f"{K}.source_partition" and len(lf[0].value.args) == 1 and nsp(expand(lf[0].value.args[0], sd)) == f"self._entity_sets[{K}.dest_partition]"
+    init_l = [st for st in walk_stmts(ir.node.body) if L is not None and isinstance(st, (ast.Assign, ast.AnnAssign)) and nsp(st.targets[0] if isinstance(st, ast.Assign) else st.target) == L]
+    ok = ok and len(init_l) == 1 and isinstance(init_l[0].value, ast.DictComp) and nsp(init_l[0].value.generators[0].iter) == "self._partitions" \
+        and isinstance(init_l[0].value.value, ast.Call) and path_of(init_l[0].value.value.func) == "set" and not init_l[0].value.value.args
+    ctx.ob("C05-6", "G7", ir, "links are directional", ok, "linked entities of a partition are those of the destination partitions of its outgoing links (the map starts empty for every partition and is only "
+           "extended, per link, at the link's source with the entity set of the link's destination)")
     ri = prog.func(PSIM, "ParallelSimulation._run_independent")
     runs = [c for c in calls_in(ri.node) + [c for f in ri.module.all_functions if f.parent is ri for c in calls_in(f.node)] if isinstance(c.func, ast.Attribute) and c.func.attr == "run"
             and "self._simulations" in unparse(c.func.value)]
